@@ -141,12 +141,14 @@ fn show_recds(rs: &[RecD]) -> String {
 
 /// Checkpoint description: head proof of a sequence of event payloads, or forged.
 #[derive(Clone)]
-enum CpD { Head(Vec<Vec<u8>>), Forged { root: Vec<u8>, hashes: Vec<Vec<u8>>, len: usize, idx: usize } }
+enum CpD { Head(Vec<Vec<u8>>), Forged { root: Vec<u8>, hashes: Vec<Vec<u8>>, len: usize, idx: usize }, RootOf { seq: Vec<Vec<u8>>, hashes: Vec<Vec<u8>>, len: usize, idx: usize } }
 impl CpD {
     fn show(&self) -> String {
         match self {
             CpD::Head(seq) => format!("H:{}", if seq.is_empty() { "-".into() } else { seq.iter().map(hex::encode).collect::<Vec<_>>().join(",") }),
             CpD::Forged { root, hashes, len, idx } => format!("F:{}|{}|{}|{}", hex::encode(root),
+                if hashes.is_empty() { "-".into() } else { hashes.iter().map(hex::encode).collect::<Vec<_>>().join(",") }, len, idx),
+            CpD::RootOf { seq, hashes, len, idx } => format!("F:R:{}|{}|{}|{}", seq.iter().map(hex::encode).collect::<Vec<_>>().join(","),
                 if hashes.is_empty() { "-".into() } else { hashes.iter().map(hex::encode).collect::<Vec<_>>().join(",") }, len, idx),
         }
     }
@@ -159,6 +161,19 @@ impl CpD {
                 t.append(&mut l);
                 t.commit();
                 t.head().ok()
+            }
+            CpD::RootOf { seq, hashes, len, idx } => {
+                if seq.is_empty() { return None; }
+                let mut t = CommitTree::new();
+                let mut l: Vec<[u8; 32]> = seq.iter().map(|b| sha256(b)).collect();
+                t.append(&mut l);
+                t.commit();
+                Some(CommitProof {
+                    root: t.root()?,
+                    proof: MerkleProof::<Sha256>::new(hashes.iter().map(|b| sha256(b)).collect()),
+                    length: *len,
+                    indices: vec![*idx],
+                })
             }
             CpD::Forged { root, hashes, len, idx } => Some(CommitProof {
                 root: CommitHash(sha256(root)),
@@ -514,9 +529,18 @@ pub async fn run_case(backend: &str, seed: u64, rep: &mut Report, ops_out: &mut 
             // replace-all with matching / wrong / empty replacement
             let rs = match rng.below(5) { 0 => vec![], _ => { let mut v = gen_recs(&mut rng, &mut clock, 4); if v.is_empty() { v.push(RecD { t: clock, bytes: vec![2] }); } v } };
             let seq: Vec<Vec<u8>> = rs.iter().map(|r| r.bytes.clone()).collect();
-            let (cpd, ck) = if rng.chance(1, 2) && !seq.is_empty() { (CpD::Head(seq.clone()), "matching") } else { let (c, _) = gen_cp(&mut rng, &cur, &others); (c, "wrong") };
+            let (cpd, ck) = if rng.chance(1, 2) && !seq.is_empty() { (CpD::Head(seq.clone()), "matching") }
+                else if rng.chance(1, 3) && !seq.is_empty() {
+                    // the right root presented with the wrong proof shape (not the head proof)
+                    let len = seq.len() + rng.below(2) as usize; let idx = rng.below(seq.len() as u64) as usize;
+                    let hashes: Vec<Vec<u8>> = (0..rng.below(3)).map(|_| vec![rng.range(1, 4) as u8]).collect();
+                    (CpD::RootOf { seq: seq.clone(), hashes, len, idx }, "right-root-wrong-shape")
+                } else { let (c, _) = gen_cp(&mut rng, &cur, &others); (c, "wrong") };
             let Some(cp) = cpd.real() else { continue };
-            let matching = matches!(&cpd, CpD::Head(s) if *s == seq && !seq.is_empty());
+            let matching = match &cpd {
+                CpD::Head(s) => *s == seq && !seq.is_empty(),
+                other => { let expect = CpD::Head(seq.clone()).real(); let got = other.real(); !seq.is_empty() && expect.is_some() && expect == got }
+            };
             let real: Vec<EventRecord> = rs.iter().map(|r| r.real()).collect();
             let diff_w = |real: Vec<EventRecord>| real;
             let real = diff_w(real);
